@@ -88,6 +88,9 @@ func reduceFunction(c *cli.Context) error {
 				rowBuf := make([]string, aggr.ColCount())
 				data := aggr.Data(group)
 				for idx, item := range group.Parts() {
+					if idx >= aggr.GroupColCount() {
+						break // a group value containing the array separator has more parts than group columns
+					}
 					rowBuf[idx] = color.Wrap(color.BrightWhite, item)
 				}
 				copy(rowBuf[aggr.GroupColCount():], data)
